@@ -324,6 +324,13 @@ def oracle_c11(h, r):
         exp = ['%d=%d' % (k, st[k][0]) for k in sorted([0, 1, 2, 3, 4, 5, BIG, BIG + 1, 99]) if k in st]
         if ag != exp:
             fails.append({'what': 'M.all_gather after epoch %d returned %s, contents give %s' % (e, ag, exp)})
+        stx, _ = state_by_key(D, e, 'X', h.n)
+        wantx = ['%d=%d' % (k, v) for k in sorted([0, 1, 2, 3, 4, 5, BIG, BIG + 1, 99]) if k in stx for v in sorted(stx[k])]
+        for rk in range(h.n):
+            gotx = Q.get((e, 'X.all_gather'), {}).get(rk)
+            if gotx is not None and gotx.split() != wantx:
+                fails.append({'what': 'multimap all_gather after epoch %d on rank %d returned %d values %s, the keys asked for hold %d: %s' % (e, rk, len(gotx.split()), gotx.split()[:8], len(wantx), wantx[:8])})
+                break
         tk = Q.get((e, 'M.topk2'), {}).get(0, '').split()
         items = sorted(((v[0], k) for k, v in st.items()), key=lambda x: (-x[0], x[1]))[:2]
         if tk != ['%d=%d' % (k, v) for v, k in items]:
@@ -490,6 +497,13 @@ def oracle_c16(h, r):
                 want[k] = want.get(k, 0) + i + 10 * me + 1
         if Y['RBK1'] != want:
             fails.append({'what': 'reduce_by_key_map over rank-local vectors: %s, per-key fold %s' % (Y['RBK1'], want)})
+        wmin = {}
+        for me in range(h.n):
+            for i in range(5 + me):
+                k = keys[(i * 7 + me) % 5]
+                wmin[k] = min(wmin.get(k, 1 << 60), i + 10 * me + 1)
+        if 'RBK3' in Y and Y['RBK3'] != wmin:
+            fails.append({'what': 'reduce_by_key_map with min over positive values: %s, per-key minimum %s' % (Y['RBK3'], wmin)})
         if Y.get('RBK2') != want:
             fails.append({'what': 'reduce_by_key_map over a distributed bag of pairs: %s, per-key fold %s' % (Y.get('RBK2'), want)})
     elif r.get('verdict') == 'ok':
